@@ -271,6 +271,10 @@ pub struct Rec {
     pub sender: Option<Entity>,
 }
 
+/// Sequence number the client's game logic uses for its greeting event on the next connect.
+#[derive(Resource, Default)]
+pub struct Hello(pub u32);
+
 /// In-app monitor log. Only mutated through `ResMut`, i.e. with exclusive access.
 #[derive(Resource, Default)]
 pub struct Log {
@@ -484,6 +488,18 @@ pub fn mk_app(cfg: &Cfg, role: Role) -> App {
     }
 
     let has_client = !(cfg.split && role == Role::Server);
+    if has_client && cfg.events && role != Role::Server {
+        // game logic that greets the server on the very frame the connection comes up
+        app.init_resource::<Hello>().add_systems(
+            Update,
+            (|mut w: EventWriter<CEv>, h: Res<Hello>| {
+                if h.0 != 0 {
+                    w.write(CEv(h.0));
+                }
+            })
+            .run_if(client_just_connected),
+        );
+    }
     if has_client {
         app.add_systems(
             Last,
